@@ -19,8 +19,10 @@ Python → Lean
 * position of element `idx` in the stream written by `nditer(order=…)`, and in the array rebuilt by
   `array.shape = shape[::-1]; array.transpose()` / `array.shape = shape` : `writeIndex`, `readIndex`
 * `byte_bounds`, `offset`, `order`, `strides`, `total_buffer_len` of `_reduce_memmap_backed` : `byteBounds`,
-  `reduceMemmapBacked`; where the rebuilt view (`make_memmap` / `as_strided`) finds element `idx` :
-  `rebuiltElemOffset`; where the original has it : `originalElemOffset`
+  `reduceMemmapBacked`; `first`, the byte-buffer length and where the view rebuilt by `_strided_from_memmap`
+  (`make_memmap` / `as_strided`) finds element `idx` : `firstElem`, `mappedBytes`, `rebuiltElemOffset`; where the
+  original has it : `originalElemOffset`. The definitions of these functions as they were before the fix commits
+  b514cf6 / 5cddabe are kept with the suffix `PreFix`
 * `ArrayMemmapForwardReducer.__call__`'s choice (reuse the backing memmap / dump and memmap / pickle by value) : `forwardReduce`
 Constants `NUMPY_ARRAY_ALIGNMENT_BYTES`, `BUFFER_SIZE` come from the regenerated table.
 
@@ -214,13 +216,14 @@ structure Reduced where
   total_buffer_len : Option Int
 deriving DecidableEq, Repr
 
-/-- `_reduce_memmap_backed(a, m)`: `m` is the backing `np.memmap` (file offset `m_offset`); the three flags
-are `a.flags["C_CONTIGUOUS"]`, `a.flags["F_CONTIGUOUS"]`, `m.flags["F_CONTIGUOUS"]`. -/
-def reduceMemmapBacked (a m : Arr) (m_offset : Nat) (a_c a_f m_f : Bool) : Reduced :=
+/-- `_reduce_memmap_backed(a, m)`: `m` is the backing `np.memmap` (file offset `m_offset`); the flags are
+`a.flags["C_CONTIGUOUS"]` and `a.flags["F_CONTIGUOUS"]`. The order is the VIEW's own
+(`"F" if a F-contiguous and not C-contiguous else "C"`, /repo b514cf6). -/
+def reduceMemmapBacked (a m : Arr) (m_offset : Nat) (a_c a_f : Bool) : Reduced :=
   let (a_start, a_end) := byteBounds a
   let m_start := (byteBounds m).1
   let offset := a_start - m_start + m_offset
-  let order := if m_f then Order.F else Order.C         -- taken from the BACKING memmap
+  let order := if a_f && !a_c then Order.F else Order.C
   if a_f || a_c then ⟨offset, order, a.shape, none, none⟩
   else ⟨offset, order, a.shape, some a.strides, some ((a_end - a_start) / a.itemsize)⟩
 
@@ -241,10 +244,46 @@ def fStridesAux : List Nat → Nat → List Int
 
 def fStrides (shape : List Nat) (itemsize : Nat) : List Int := fStridesAux shape itemsize
 
+/-- `first = sum((n - 1) * -s for n, s in zip(shape, strides) if s < 0)` of `_strided_from_memmap`: how far above
+the lowest address element `[0,…,0]` lies. -/
+def firstElem (shape : List Nat) (strides : List Int) : Int := - lowAdj shape strides
+
+/-- `first + last + itemsize` with `last = sum((n - 1) * s for … if s > 0)`: the length of the uint8 memmap
+`_strided_from_memmap` maps from `offset` for a non-contiguous view (/repo 5cddabe). -/
+def mappedBytes (shape : List Nat) (strides : List Int) (itemsize : Nat) : Int :=
+  firstElem shape strides + highAdj shape strides + itemsize
+
 /-- File offset at which the array rebuilt by `_strided_from_memmap` looks for element `idx`:
 `make_memmap(…, shape=shape, order=order, offset=offset)` when `strides is None`, else
-`as_strided(make_memmap(…, shape=total_buffer_len, offset=offset), shape, strides)`. -/
+`as_strided(base[first : first + itemsize].view(dtype), shape, strides)` over the byte buffer `base` mapped at
+`offset`. -/
 def rebuiltElemOffset (r : Reduced) (itemsize : Nat) (idx : List Nat) : Int :=
+  match r.strides with
+  | none =>
+    r.offset + dot (match r.order with
+      | .C => cStrides r.shape itemsize
+      | .F => fStrides r.shape itemsize) idx
+  | some st => r.offset + firstElem r.shape st + dot st idx
+
+/-- File offset of element `idx` of the original view `a` of the memmap `m`. -/
+def originalElemOffset (a m : Arr) (m_offset : Nat) (idx : List Nat) : Int :=
+  (a.ptr + dot a.strides idx) - m.ptr + m_offset
+
+/-! ### PRE-FIX definitions — the code as it was BEFORE /repo b514cf6 (F24) and 5cddabe (F25, F26). Not used by
+the driver or the correspondence; kept so that the witnesses of the three defects stay machine-checked. -/
+
+/-- pre-fix `_reduce_memmap_backed`: the order was taken from the BACKING memmap (`m.flags["F_CONTIGUOUS"]`). -/
+def reduceMemmapBackedPreFix (a m : Arr) (m_offset : Nat) (a_c a_f m_f : Bool) : Reduced :=
+  let (a_start, a_end) := byteBounds a
+  let m_start := (byteBounds m).1
+  let offset := a_start - m_start + m_offset
+  let order := if m_f then Order.F else Order.C
+  if a_f || a_c then ⟨offset, order, a.shape, none, none⟩
+  else ⟨offset, order, a.shape, some a.strides, some ((a_end - a_start) / a.itemsize)⟩
+
+/-- pre-fix `_strided_from_memmap`: `as_strided(make_memmap(…, shape=total_buffer_len, offset=offset), shape,
+strides)` — element `[0,…,0]` assumed AT `offset`. -/
+def rebuiltElemOffsetPreFix (r : Reduced) (itemsize : Nat) (idx : List Nat) : Int :=
   match r.strides with
   | none =>
     r.offset + dot (match r.order with
@@ -252,40 +291,9 @@ def rebuiltElemOffset (r : Reduced) (itemsize : Nat) (idx : List Nat) : Int :=
       | .F => fStrides r.shape itemsize) idx
   | some st => r.offset + dot st idx
 
-/-- File offset of element `idx` of the original view `a` of the memmap `m`. -/
-def originalElemOffset (a m : Arr) (m_offset : Nat) (idx : List Nat) : Int :=
-  (a.ptr + dot a.strides idx) - m.ptr + m_offset
-
-/-- Number of bytes the rebuilt base maps from `offset` (`total_buffer_len` items). -/
-def mappedBytes (r : Reduced) (itemsize : Nat) : Option Int :=
+/-- pre-fix: number of bytes the rebuilt base mapped from `offset` (`total_buffer_len` items of the dtype). -/
+def mappedBytesPreFix (r : Reduced) (itemsize : Nat) : Option Int :=
   r.total_buffer_len.map (· * itemsize)
-
-/-! ### the candidate repair `fixes/F24-F26-memmap-view-reduction.diff` (NOT what /repo has; the driver and the
-correspondence use the definitions above). `order` is taken from the VIEW; a strided view is rebuilt over a BYTE
-buffer `[a_start, a_end)`, element `[0,…,0]` being found `first` bytes into it. -/
-
-def reduceMemmapBackedRepaired (a m : Arr) (m_offset : Nat) (a_c a_f : Bool) : Reduced :=
-  let (a_start, a_end) := byteBounds a
-  let m_start := (byteBounds m).1
-  let offset := a_start - m_start + m_offset
-  let order := if a_f && !a_c then Order.F else Order.C
-  if a_f || a_c then ⟨offset, order, a.shape, none, none⟩
-  else ⟨offset, order, a.shape, some a.strides, some ((a_end - a_start) / a.itemsize)⟩
-
-/-- `first = sum((n - 1) * -s for n, s in zip(shape, strides) if s < 0)`. -/
-def firstElem (shape : List Nat) (strides : List Int) : Int := - lowAdj shape strides
-
-/-- `last = sum((n - 1) * s for … if s > 0)`; the byte buffer has `first + last + itemsize` bytes. -/
-def repairedMappedBytes (shape : List Nat) (strides : List Int) (itemsize : Nat) : Int :=
-  firstElem shape strides + highAdj shape strides + itemsize
-
-def rebuiltElemOffsetRepaired (r : Reduced) (itemsize : Nat) (idx : List Nat) : Int :=
-  match r.strides with
-  | none =>
-    r.offset + dot (match r.order with
-      | .C => cStrides r.shape itemsize
-      | .F => fStrides r.shape itemsize) idx
-  | some st => r.offset + firstElem r.shape st + dot st idx
 
 /-! ### `ArrayMemmapForwardReducer.__call__`: what happens to an array argument sent to a process worker -/
 
